@@ -1080,3 +1080,92 @@ func argsOf(c *ssa.CallCommon) []ssa.Value {
 	}
 	return c.Args
 }
+
+// ---------------------------------------------------------------------------
+// A small feasibility pruner for boolean flags carried in phis
+// (`skip := false; if c1 { skip = true }; ...; if skip { continue }`).
+
+// phiFalsePrunedEdges returns CFG edges that cannot lie on any path to sink:
+// if sink is dominated by the edge on which a bool phi P is false, then P's
+// block was not entered (last) through a predecessor that assigns constant
+// true to P — provided that predecessor edge cannot be followed by another
+// visit of P's block before the test (P's block dominates the test and the
+// test precedes any back edge to P's block).
+func phiFalsePrunedEdges(fn *ssa.Function, sink *ssa.BasicBlock) []succEdge {
+	var out []succEdge
+	for _, i := range ifsOf(fn) {
+		ca := decomposeIf(i)
+		if ca.Op != token.ILLEGAL {
+			continue
+		}
+		phi, ok := ca.X.(*ssa.Phi)
+		if !ok {
+			continue
+		}
+		falseEdge := 1
+		if ca.Neg {
+			falseEdge = 0
+		}
+		if !edgesDominate(fn, []succEdge{{i.Block(), falseEdge}}, sink) {
+			continue
+		}
+		if !phi.Block().Dominates(i.Block()) {
+			continue
+		}
+		// collect, transitively through phis that merge the same flag, the edges that bring constant true
+		seen := map[*ssa.Phi]bool{}
+		var walk func(p *ssa.Phi)
+		walk = func(p *ssa.Phi) {
+			if seen[p] {
+				return
+			}
+			seen[p] = true
+			for k, e := range p.Edges {
+				pred := p.Block().Preds[k]
+				if b, ok := constBool(e); ok && b {
+					for si, s := range pred.Succs {
+						if s == p.Block() {
+							out = append(out, succEdge{pred, si})
+						}
+					}
+					continue
+				}
+				if q, ok := e.(*ssa.Phi); ok && q.Block().Dominates(p.Block()) && q != p {
+					// only follow phis of the same iteration (the defining block dominates and is not a loop header re-entry)
+					if !reachFrom(p.Block(), nil)[q.Block()] || q.Block() == p.Block() {
+						walk(q)
+					} else if !loopHeaderOf(q, p) {
+						walk(q)
+					}
+				}
+			}
+		}
+		walk(phi)
+	}
+	return out
+}
+
+// loopHeaderOf: q is re-entered from p's block (q is a loop-carried phi fed by p).
+func loopHeaderOf(q, p *ssa.Phi) bool {
+	for _, e := range q.Edges {
+		if e == ssa.Value(p) {
+			return true
+		}
+	}
+	return false
+}
+
+// edgesDominateFeasible is edgesDominate with the bool-phi pruner applied.
+func edgesDominateFeasible(fn *ssa.Function, edges []succEdge, sink *ssa.BasicBlock) bool {
+	if edgesDominate(fn, edges, sink) {
+		return true
+	}
+	if len(edges) == 0 {
+		return false
+	}
+	extra := phiFalsePrunedEdges(fn, sink)
+	if len(extra) == 0 {
+		return false
+	}
+	return edgesDominate(fn, append(append([]succEdge{}, edges...), extra...), sink)
+}
